@@ -2,261 +2,509 @@ package main
 
 import (
 	"go/ast"
+	"go/parser"
 	"go/token"
+	"os"
+	"path/filepath"
+	"sort"
 	"strconv"
+	"strings"
 )
 
-// C04: the merge limit newCursor passes to GetJournals, the comparison GetJournals makes against it, the operator of
-// model.GetEarliest, and whether testFunc negates the comparison when the mixer runs backward.
+// C04 facts: the merge limit newCursor passes to GetJournals, the comparison GetJournals makes against it, the operator of
+// model.GetEarliest, whether testFunc negates the comparison when the mixer runs backward, that newCursor mixes with
+// GetEarliest, and that it sorts the tag lines before the reduction.
+//
+// The shapes are matched *structurally*: a shape is looked for in the anchor function and in the same-package
+// functions/methods it calls (depth <= 2, in statement order); parameters are identified by position, local variables by
+// role, never by name; if / switch / early-return / negated forms of the same decision are accepted. A behaviour-preserving
+// refactoring (extracting a helper, renaming locals, if-cascade -> switch) therefore leaves the facts unchanged.
+
+// ---------------------------------------------------------------------------------------------
+// a package: all its non-test files, functions by name
+
+type c04pkg struct {
+	files []*ast.File
+	funcs []*ast.FuncDecl
+}
+
+func c04loadPkg(relDir string) *c04pkg {
+	p := &c04pkg{}
+	dir := filepath.Join(repo, relDir)
+	ents, err := os.ReadDir(dir)
+	if err != nil {
+		problem("cannot read %s: %v", relDir, err)
+		return p
+	}
+	var names []string
+	for _, e := range ents {
+		if !e.IsDir() && strings.HasSuffix(e.Name(), ".go") && !strings.HasSuffix(e.Name(), "_test.go") {
+			names = append(names, e.Name())
+		}
+	}
+	sort.Strings(names)
+	for _, n := range names {
+		f, err := parser.ParseFile(fset, filepath.Join(dir, n), nil, 0)
+		if err != nil {
+			continue // a half-written file of somebody else must not break this extractor
+		}
+		p.files = append(p.files, f)
+		for _, d := range f.Decls {
+			if fd, ok := d.(*ast.FuncDecl); ok && fd.Body != nil {
+				p.funcs = append(p.funcs, fd)
+			}
+		}
+	}
+	return p
+}
+
+func c04recv(fd *ast.FuncDecl) string {
+	if fd.Recv == nil || len(fd.Recv.List) != 1 {
+		return ""
+	}
+	switch t := fd.Recv.List[0].Type.(type) {
+	case *ast.StarExpr:
+		if id, ok := t.X.(*ast.Ident); ok {
+			return id.Name
+		}
+	case *ast.Ident:
+		return t.Name
+	}
+	return "?"
+}
+
+// find: function (recv == "") or method of the given receiver type; recv == "*" = any receiver, must be unique
+func (p *c04pkg) find(recv, name string) *ast.FuncDecl {
+	var hit []*ast.FuncDecl
+	for _, fd := range p.funcs {
+		if fd.Name.Name != name {
+			continue
+		}
+		r := c04recv(fd)
+		if recv == "*" && r != "" || recv != "*" && r == recv {
+			hit = append(hit, fd)
+		}
+	}
+	if len(hit) == 1 {
+		return hit[0]
+	}
+	return nil
+}
+
+// callee: the same-package declaration a call goes to, when that can be told without type information: `f(…)` with f a
+// package-level function; `x.m(…)` / `x.y.m(…)` with exactly one method named m in the package (and x not an imported package)
+func (p *c04pkg) callee(c *ast.CallExpr) *ast.FuncDecl {
+	switch f := c.Fun.(type) {
+	case *ast.Ident:
+		return p.find("", f.Name)
+	case *ast.SelectorExpr:
+		if id, ok := f.X.(*ast.Ident); ok && id.Obj == nil {
+			// an unresolved identifier in front of the dot: an imported package (sort.Slice, errors.Errorf, …) — or a
+			// package-level variable; a unique method of that name decides
+			for _, file := range p.files {
+				for _, im := range file.Imports {
+					path, _ := strconv.Unquote(im.Path.Value)
+					nm := path[strings.LastIndexByte(path, '/')+1:]
+					if im.Name != nil {
+						nm = im.Name.Name
+					}
+					if nm == id.Name {
+						return nil
+					}
+				}
+			}
+		}
+		return p.find("*", f.Sel.Name)
+	}
+	return nil
+}
+
+// reach: fd and the same-package functions it calls, transitively to the given depth, in statement order, each once
+func (p *c04pkg) reach(fd *ast.FuncDecl, depth int) []*ast.FuncDecl {
+	if fd == nil {
+		return nil
+	}
+	res := []*ast.FuncDecl{fd}
+	seen := map[*ast.FuncDecl]bool{fd: true}
+	var walk func(f *ast.FuncDecl, d int)
+	walk = func(f *ast.FuncDecl, d int) {
+		if d == 0 {
+			return
+		}
+		var next []*ast.FuncDecl
+		ast.Inspect(f.Body, func(n ast.Node) bool {
+			if c, ok := n.(*ast.CallExpr); ok {
+				if g := p.callee(c); g != nil && !seen[g] {
+					seen[g] = true
+					res = append(res, g)
+					next = append(next, g)
+				}
+			}
+			return true
+		})
+		for _, g := range next {
+			walk(g, d-1)
+		}
+	}
+	walk(fd, depth)
+	return res
+}
+
+// intConst: an integer literal, or an identifier naming a package-level constant with an integer literal value
+func (p *c04pkg) intConst(e ast.Expr) (int, bool) {
+	switch x := e.(type) {
+	case *ast.BasicLit:
+		if x.Kind == token.INT {
+			v, err := strconv.ParseInt(x.Value, 0, 64)
+			return int(v), err == nil
+		}
+	case *ast.ParenExpr:
+		return p.intConst(x.X)
+	case *ast.Ident:
+		for _, f := range p.files {
+			for _, d := range f.Decls {
+				gd, ok := d.(*ast.GenDecl)
+				if !ok || gd.Tok != token.CONST {
+					continue
+				}
+				for _, s := range gd.Specs {
+					vs := s.(*ast.ValueSpec)
+					for i, nm := range vs.Names {
+						if nm.Name == x.Name && i < len(vs.Values) {
+							return p.intConst(vs.Values[i])
+						}
+					}
+				}
+			}
+		}
+	}
+	return 0, false
+}
+
+func c04params(fd *ast.FuncDecl) []string {
+	var ps []string
+	if fd.Type.Params != nil {
+		for _, f := range fd.Type.Params.List {
+			if len(f.Names) == 0 {
+				ps = append(ps, "_")
+			}
+			for _, n := range f.Names {
+				ps = append(ps, n.Name)
+			}
+		}
+	}
+	return ps
+}
+
+func c04unparen(e ast.Expr) ast.Expr {
+	for {
+		p, ok := e.(*ast.ParenExpr)
+		if !ok {
+			return e
+		}
+		e = p.X
+	}
+}
+
+var c04swap = map[string]string{"<": ">", ">": "<", "<=": ">=", ">=": "<=", "==": "==", "!=": "!="}
+var c04neg = map[string]string{"<": ">=", ">": "<=", "<=": ">", ">=": "<", "==": "!=", "!=": "=="}
+
+// cmpOp: e as `L OP R` for the two operand recognisers (swapped operands and negations normalised); "" = not of that shape
+func c04cmpOp(e ast.Expr, isL, isR func(ast.Expr) bool) string {
+	e = c04unparen(e)
+	if u, ok := e.(*ast.UnaryExpr); ok && u.Op == token.NOT {
+		if op := c04cmpOp(u.X, isL, isR); op != "" {
+			return c04neg[op]
+		}
+		return ""
+	}
+	be, ok := e.(*ast.BinaryExpr)
+	if !ok {
+		return ""
+	}
+	op := be.Op.String()
+	if _, known := c04swap[op]; !known {
+		return ""
+	}
+	if isL(c04unparen(be.X)) && isR(c04unparen(be.Y)) {
+		return op
+	}
+	if isR(c04unparen(be.X)) && isL(c04unparen(be.Y)) {
+		return c04swap[op]
+	}
+	return ""
+}
+
+func c04boolLit(e ast.Expr) (bool, bool) {
+	if id, ok := c04unparen(e).(*ast.Ident); ok && (id.Name == "true" || id.Name == "false") {
+		return id.Name == "true", true
+	}
+	return false, false
+}
+
+// boolResult: the comparison a boolean function body returns, through `return E`, `if E { return true }; return false`,
+// `if E { return false }; return true`, `if E { return true } else { return false }`
+func c04boolBody(body *ast.BlockStmt, cmp func(ast.Expr) string) string {
+	if body == nil {
+		return ""
+	}
+	st := body.List
+	if len(st) == 1 {
+		if rs, ok := st[0].(*ast.ReturnStmt); ok && len(rs.Results) == 1 {
+			return cmp(rs.Results[0])
+		}
+	}
+	retLit := func(s ast.Stmt) (bool, bool) {
+		if b, ok := s.(*ast.BlockStmt); ok && len(b.List) == 1 {
+			s = b.List[0]
+		}
+		if rs, ok := s.(*ast.ReturnStmt); ok && len(rs.Results) == 1 {
+			return c04boolLit(rs.Results[0])
+		}
+		return false, false
+	}
+	if len(st) >= 1 {
+		if is, ok := st[0].(*ast.IfStmt); ok && is.Init == nil {
+			thenV, ok1 := retLit(is.Body)
+			var elseV, ok2 bool
+			if is.Else != nil && len(st) == 1 {
+				elseV, ok2 = retLit(is.Else)
+			} else if is.Else == nil && len(st) == 2 {
+				elseV, ok2 = retLit(st[1])
+			}
+			if ok1 && ok2 && thenV != elseV {
+				op := cmp(is.Cond)
+				if op != "" && !thenV {
+					op = c04neg[op]
+				}
+				return op
+			}
+		}
+	}
+	return ""
+}
+
 func init() {
 	generators["C04"] = func() {
-		l := newLean("C04", "Facts about pkg/cursor/cursor.go (getSourcesByState), pkg/partition/partition.go (GetJournals),\npkg/model/mixer.go (GetEarliest, testFunc).")
+		l := newLean("C04", "Facts about pkg/cursor/cursor.go (newCursor and what it calls), pkg/partition/partition.go (GetJournals),\npkg/model/mixer.go (GetEarliest, testFunc). Shapes are matched structurally, through same-package helpers (depth 2).")
+		cur := c04loadPkg("pkg/cursor")
+		part := c04loadPkg("pkg/partition")
+		mdl := c04loadPkg("pkg/model")
 
-		// 1. the literal third argument of itf.GetJournals(ctx, sel.Source, 50)
+		newCursor := cur.find("", "newCursor")
+		if newCursor == nil {
+			problem("cursor.newCursor not found")
+		}
+		curReach := cur.reach(newCursor, 2)
+
+		// 1. the limit: third argument of a call `<x>.GetJournals(a, b, LIMIT)` made by newCursor or what it calls
 		limit := -1
-		fd := funcDecl(parseFile("pkg/cursor/cursor.go"), "", "getSourcesByState")
-		if fd == nil {
-			problem("cursor.getSourcesByState not found")
-		} else {
+		for _, fd := range curReach {
 			ast.Inspect(fd.Body, func(n ast.Node) bool {
 				c, ok := n.(*ast.CallExpr)
-				if !ok {
+				if !ok || limit >= 0 {
 					return true
 				}
 				if se, ok := c.Fun.(*ast.SelectorExpr); ok && se.Sel.Name == "GetJournals" && len(c.Args) == 3 {
-					if bl, ok := c.Args[2].(*ast.BasicLit); ok && bl.Kind == token.INT {
-						if v, err := strconv.Atoi(bl.Value); err == nil {
-							limit = v
-						}
+					if v, ok := cur.intConst(c.Args[2]); ok {
+						limit = v
 					}
 				}
 				return true
 			})
-			if limit < 0 {
-				problem("the merge limit passed to GetJournals in getSourcesByState is no longer an integer literal")
-				limit = 0
-			}
 		}
-		l.p("/-- `itf.GetJournals(ctx, sel.Source, <this>)` in `getSourcesByState` -/")
+		if limit < 0 {
+			problem("no call GetJournals(_, _, <integer constant>) reachable from cursor.newCursor")
+			limit = 0
+		}
+		l.p("/-- the limit `newCursor` (through `getSourcesByState`) passes to `GetJournals` -/")
 		l.p("def mergeLimit : Nat := %d", limit)
 
-		// 2. `if len(res) == maxLimit` inside GetJournals
+		// 2. `len(<map>) OP <third parameter>` in GetJournals (or a helper it calls; the parameter may be passed on by position)
 		op := ""
-		gj := funcDecl(parseFile("pkg/partition/partition.go"), "Service", "GetJournals")
+		gj := part.find("Service", "GetJournals")
 		if gj == nil {
 			problem("partition.Service.GetJournals not found")
 		} else {
-			ast.Inspect(gj.Body, func(n ast.Node) bool {
-				be, ok := n.(*ast.BinaryExpr)
-				if !ok {
-					return true
-				}
-				isMax := func(e ast.Expr) bool { id, ok := e.(*ast.Ident); return ok && id.Name == "maxLimit" }
-				isLen := func(e ast.Expr) bool {
-					c, ok := e.(*ast.CallExpr)
-					if !ok {
-						return false
-					}
-					id, ok := c.Fun.(*ast.Ident)
-					return ok && id.Name == "len"
-				}
-				if (isMax(be.Y) && isLen(be.X)) || (isMax(be.X) && isLen(be.Y)) {
-					op = be.Op.String()
-					if isMax(be.X) { // normalise to len(res) OP maxLimit
-						switch op {
-						case "<":
-							op = ">"
-						case ">":
-							op = "<"
-						case "<=":
-							op = ">="
-						case ">=":
-							op = "<="
-						}
-					}
-				}
-				return true
-			})
-			if op == "" {
-				problem("GetJournals no longer compares len(res) with maxLimit")
+			ps := c04params(gj)
+			limName := ""
+			if len(ps) == 3 {
+				limName = ps[2]
 			}
-		}
-		l.p("/-- the operator of `len(res) OP maxLimit` in `GetJournals` -/")
-		l.p("def limitCheckOp : String := %s", leanStr(op))
-
-		// 3. GetEarliest: `return ev1.Timestamp <= ev2.Timestamp`
-		mf := parseFile("pkg/model/mixer.go")
-		geOp := ""
-		if ge := funcDecl(mf, "", "GetEarliest"); ge == nil {
-			problem("model.GetEarliest not found")
-		} else {
-			ast.Inspect(ge.Body, func(n ast.Node) bool {
-				if rs, ok := n.(*ast.ReturnStmt); ok && len(rs.Results) == 1 {
-					if be, ok := rs.Results[0].(*ast.BinaryExpr); ok {
-						x, okx := be.X.(*ast.SelectorExpr)
-						y, oky := be.Y.(*ast.SelectorExpr)
-						if okx && oky && x.Sel.Name == "Timestamp" && y.Sel.Name == "Timestamp" {
-							xi, _ := x.X.(*ast.Ident)
-							yi, _ := y.X.(*ast.Ident)
-							if xi != nil && yi != nil && xi.Name == "ev1" && yi.Name == "ev2" {
-								geOp = be.Op.String()
+			isLen := func(e ast.Expr) bool {
+				c, ok := e.(*ast.CallExpr)
+				if !ok {
+					return false
+				}
+				id, ok := c.Fun.(*ast.Ident)
+				return ok && id.Name == "len" && len(c.Args) == 1
+			}
+			var look func(fd *ast.FuncDecl, name string, depth int)
+			look = func(fd *ast.FuncDecl, name string, depth int) {
+				isLim := func(e ast.Expr) bool { id, ok := e.(*ast.Ident); return ok && id.Name == name }
+				ast.Inspect(fd.Body, func(n ast.Node) bool {
+					if e, ok := n.(ast.Expr); ok && op == "" {
+						if _, isBin := c04unparen(e).(*ast.BinaryExpr); isBin {
+							if o := c04cmpOp(e, isLen, isLim); o != "" {
+								op = o
 							}
 						}
 					}
-				}
-				return true
-			})
-			if geOp == "" {
-				problem("model.GetEarliest is no longer `return ev1.Timestamp OP ev2.Timestamp`")
+					if c, ok := n.(*ast.CallExpr); ok && depth > 0 && op == "" {
+						if g := part.callee(c); g != nil && g != fd {
+							gp := c04params(g)
+							for i, a := range c.Args {
+								if isLim(c04unparen(a)) && i < len(gp) {
+									look(g, gp[i], depth-1)
+								}
+							}
+						}
+					}
+					return true
+				})
+			}
+			if limName != "" {
+				look(gj, limName, 2)
+			}
+			if op == "" {
+				problem("GetJournals no longer compares len(<result map>) with its limit parameter")
 			}
 		}
-		l.p("/-- the operator of `ev1.Timestamp OP ev2.Timestamp` in `model.GetEarliest` -/")
+		l.p("/-- the operator of `len(res) OP maxLimit` in `GetJournals` (operands and negations normalised) -/")
+		l.p("def limitCheckOp : String := %s", leanStr(op))
+
+		// 3. GetEarliest(p1, p2): p1.Timestamp OP p2.Timestamp
+		geOp := ""
+		if ge := mdl.find("", "GetEarliest"); ge == nil {
+			problem("model.GetEarliest not found")
+		} else {
+			ps := c04params(ge)
+			if len(ps) == 2 {
+				ts := func(name string) func(ast.Expr) bool {
+					return func(e ast.Expr) bool {
+						se, ok := e.(*ast.SelectorExpr)
+						if !ok || se.Sel.Name != "Timestamp" {
+							return false
+						}
+						id, ok := se.X.(*ast.Ident)
+						return ok && id.Name == name
+					}
+				}
+				geOp = c04boolBody(ge.Body, func(e ast.Expr) string { return c04cmpOp(e, ts(ps[0]), ts(ps[1])) })
+			}
+			if geOp == "" {
+				problem("model.GetEarliest no longer decides by comparing the two timestamps")
+			}
+		}
+		l.p("/-- the operator of `ev1.Timestamp OP ev2.Timestamp` in `model.GetEarliest` (operands and negations normalised) -/")
 		l.p("def getEarliestOp : String := %s", leanStr(geOp))
 
-		// 4. testFunc: `if mr.bkwd { return !res }`
+		// 4. testFunc: the result of the select function is negated exactly when the mixer runs backward
 		neg := false
-		if tf := funcDecl(mf, "Mixer", "testFunc"); tf == nil {
+		if tf := mdl.find("Mixer", "testFunc"); tf == nil {
 			problem("model.Mixer.testFunc not found")
 		} else {
-			ast.Inspect(tf.Body, func(n ast.Node) bool {
-				is, ok := n.(*ast.IfStmt)
-				if !ok {
-					return true
+			isBk := func(e ast.Expr) bool {
+				se, ok := c04unparen(e).(*ast.SelectorExpr)
+				return ok && se.Sel.Name == "bkwd"
+			}
+			isNotBk := func(e ast.Expr) bool {
+				u, ok := c04unparen(e).(*ast.UnaryExpr)
+				return ok && u.Op == token.NOT && isBk(u.X)
+			}
+			isNot := func(e ast.Expr) bool { u, ok := c04unparen(e).(*ast.UnaryExpr); return ok && u.Op == token.NOT }
+			retOf := func(b *ast.BlockStmt) ast.Expr {
+				if b != nil && len(b.List) == 1 {
+					if rs, ok := b.List[0].(*ast.ReturnStmt); ok && len(rs.Results) == 1 {
+						return rs.Results[0]
+					}
 				}
-				if se, ok := is.Cond.(*ast.SelectorExpr); ok && se.Sel.Name == "bkwd" {
-					for _, st := range is.Body.List {
-						if rs, ok := st.(*ast.ReturnStmt); ok && len(rs.Results) == 1 {
-							if ue, ok := rs.Results[0].(*ast.UnaryExpr); ok && ue.Op == token.NOT {
+				return nil
+			}
+			for _, fd := range mdl.reach(tf, 1) {
+				stmts := fd.Body.List
+				for i, s := range stmts {
+					switch st := s.(type) {
+					case *ast.IfStmt:
+						var after ast.Expr
+						if st.Else != nil {
+							if eb, ok := st.Else.(*ast.BlockStmt); ok {
+								after = retOf(eb)
+							}
+						} else if i+1 < len(stmts) {
+							if rs, ok := stmts[i+1].(*ast.ReturnStmt); ok && len(rs.Results) == 1 {
+								after = rs.Results[0]
+							}
+						}
+						then := retOf(st.Body)
+						// if bkwd { return !res }; return res        |  if !bkwd { return res }; return !res
+						if isBk(st.Cond) && then != nil && isNot(then) && after != nil && !isNot(after) {
+							neg = true
+						}
+						if isNotBk(st.Cond) && then != nil && !isNot(then) && after != nil && isNot(after) {
+							neg = true
+						}
+						// if bkwd { res = !res }; return res
+						if isBk(st.Cond) && len(st.Body.List) == 1 {
+							if as, ok := st.Body.List[0].(*ast.AssignStmt); ok && len(as.Lhs) == 1 && len(as.Rhs) == 1 && isNot(as.Rhs[0]) {
+								l0, ok1 := as.Lhs[0].(*ast.Ident)
+								r0, ok2 := c04unparen(as.Rhs[0]).(*ast.UnaryExpr).X.(*ast.Ident)
+								if ok1 && ok2 && l0.Name == r0.Name {
+									neg = true
+								}
+							}
+						}
+					case *ast.ReturnStmt:
+						// return res != bkwd   (exclusive or)
+						if len(st.Results) == 1 {
+							if be, ok := c04unparen(st.Results[0]).(*ast.BinaryExpr); ok && be.Op == token.NEQ && (isBk(be.X) != isBk(be.Y)) {
 								neg = true
 							}
 						}
 					}
 				}
-				return true
-			})
+			}
 		}
-		l.p("/-- `testFunc` returns the negated comparison when `mr.bkwd` -/")
+		l.p("/-- `testFunc` returns the negated comparison exactly when `mr.bkwd` -/")
 		l.p("def testFuncNegatesBackward : Bool := %s", leanBool(neg))
 
-		// 5. newCursor initialises every mixer with model.GetEarliest
-		usesGE := false
-		if nc := funcDecl(parseFile("pkg/cursor/cursor.go"), "", "newCursor"); nc == nil {
-			problem("cursor.newCursor not found")
-		} else {
-			ast.Inspect(nc.Body, func(n ast.Node) bool {
+		// 5. the mixers newCursor (or a helper it calls) makes are initialised with GetEarliest: `<m>.Init(<…>.GetEarliest, a, b)`
+		usesGE, otherInit := false, false
+		for _, fd := range curReach {
+			ast.Inspect(fd.Body, func(n ast.Node) bool {
 				c, ok := n.(*ast.CallExpr)
 				if !ok {
 					return true
 				}
 				if se, ok := c.Fun.(*ast.SelectorExpr); ok && se.Sel.Name == "Init" && len(c.Args) == 3 {
-					if a, ok := c.Args[0].(*ast.SelectorExpr); ok && a.Sel.Name == "GetEarliest" {
+					a := c04unparen(c.Args[0])
+					name := ""
+					switch x := a.(type) {
+					case *ast.SelectorExpr:
+						name = x.Sel.Name
+					case *ast.Ident:
+						name = x.Name
+					}
+					if name == "GetEarliest" {
 						usesGE = true
+					} else {
+						otherInit = true
 					}
 				}
 				return true
 			})
 		}
-		l.p("/-- `newCursor` initialises its mixers with `model.GetEarliest` -/")
-		l.p("def newCursorUsesGetEarliest : Bool := %s", leanBool(usesGE))
+		l.p("/-- every `Mixer.Init` reachable from `newCursor` selects with `model.GetEarliest` -/")
+		l.p("def newCursorUsesGetEarliest : Bool := %s", leanBool(usesGE && !otherInit))
 
-		// 6. newCursor sorts the tag lines before it fills the slice the reduction works on:
-		//    keys collected by ranging over the map `srcs` into a slice S, `sort.Slice(S, func(i, j) bool { return S[i] < S[j] })`
-		//    (or sort.Strings-like call on S), and `mxs[i] = …` assigned inside `for i, … := range S` (not inside a range over the map)
+		// 6. the tag lines are sorted before the slice of the reduction is filled:
+		//    some slice S is appended to inside a range loop (the map's keys), then `sort.Slice[Stable](S, func(a, b int) bool
+		//    { return S[a] < S[b] })` (normalised), then either `for k, … := range S { ARR[k] = … }` / `… = append(ARR, …)`, or S
+		//    is returned by the helper and the caller ranges over the helper's result in that way
 		sorts := false
-		if nc := funcDecl(parseFile("pkg/cursor/cursor.go"), "", "newCursor"); nc != nil {
-			sortedSlice := ""
-			sortPos := token.NoPos
-			ast.Inspect(nc.Body, func(n ast.Node) bool {
-				c, ok := n.(*ast.CallExpr)
-				if !ok {
-					return true
-				}
-				se, ok := c.Fun.(*ast.SelectorExpr)
-				if !ok {
-					return true
-				}
-				pk, _ := se.X.(*ast.Ident)
-				if pk == nil || pk.Name != "sort" || se.Sel.Name != "Slice" || len(c.Args) != 2 {
-					return true
-				}
-				id, _ := c.Args[0].(*ast.Ident)
-				fl, _ := c.Args[1].(*ast.FuncLit)
-				if id == nil || fl == nil || len(fl.Body.List) != 1 {
-					return true
-				}
-				rs, _ := fl.Body.List[0].(*ast.ReturnStmt)
-				if rs == nil || len(rs.Results) != 1 {
-					return true
-				}
-				be, _ := rs.Results[0].(*ast.BinaryExpr)
-				if be == nil || be.Op != token.LSS {
-					return true
-				}
-				ix, _ := be.X.(*ast.IndexExpr)
-				iy, _ := be.Y.(*ast.IndexExpr)
-				if ix == nil || iy == nil {
-					return true
-				}
-				ax, _ := ix.X.(*ast.Ident)
-				ay, _ := iy.X.(*ast.Ident)
-				ii, _ := ix.Index.(*ast.Ident)
-				jj, _ := iy.Index.(*ast.Ident)
-				if ax == nil || ay == nil || ii == nil || jj == nil || ax.Name != id.Name || ay.Name != id.Name {
-					return true
-				}
-				// the less function's parameters, in order
-				var params []string
-				for _, f := range fl.Type.Params.List {
-					for _, nm := range f.Names {
-						params = append(params, nm.Name)
-					}
-				}
-				if len(params) == 2 && ii.Name == params[0] && jj.Name == params[1] {
-					sortedSlice = id.Name
-					sortPos = c.Pos()
-				}
-				return true
-			})
-			if sortedSlice != "" {
-				// the slice is filled from the keys of srcs before the sort, and mxs is filled by ranging over it after the sort
-				filled, consumed := false, false
-				ast.Inspect(nc.Body, func(n ast.Node) bool {
-					rs, ok := n.(*ast.RangeStmt)
-					if !ok {
-						return true
-					}
-					over, _ := rs.X.(*ast.Ident)
-					if over == nil {
-						return true
-					}
-					if over.Name == "srcs" && rs.Pos() < sortPos {
-						ast.Inspect(rs.Body, func(m ast.Node) bool {
-							if as, ok := m.(*ast.AssignStmt); ok && len(as.Lhs) == 1 {
-								if l, ok := as.Lhs[0].(*ast.Ident); ok && l.Name == sortedSlice {
-									filled = true
-								}
-							}
-							return true
-						})
-					}
-					if over.Name == sortedSlice && rs.Pos() > sortPos {
-						key, _ := rs.Key.(*ast.Ident)
-						ast.Inspect(rs.Body, func(m ast.Node) bool {
-							if as, ok := m.(*ast.AssignStmt); ok && len(as.Lhs) == 1 {
-								if ie, ok := as.Lhs[0].(*ast.IndexExpr); ok {
-									arr, _ := ie.X.(*ast.Ident)
-									idx, _ := ie.Index.(*ast.Ident)
-									if arr != nil && idx != nil && key != nil && arr.Name == "mxs" && idx.Name == key.Name {
-										consumed = true
-									}
-								}
-							}
-							return true
-						})
-					}
-					return true
-				})
-				sorts = filled && consumed
+		for _, fd := range curReach {
+			if c04sortsThenFills(cur, fd, curReach) {
+				sorts = true
 			}
 		}
 		l.p("/-- `newCursor` collects the tag lines of the map `srcs`, sorts them ascending (`sort.Slice` with `<` on `tag.Line`) and")
@@ -264,4 +512,158 @@ func init() {
 		l.p("def newCursorSortsSources : Bool := %s", leanBool(sorts))
 		l.write()
 	}
+}
+
+// c04fillLoop: after position `from`, a `for k, … := range <slice>` whose body stores into `ARR[k]` or appends to a slice
+func c04fillLoop(fd *ast.FuncDecl, slice string, from token.Pos) bool {
+	ok := false
+	ast.Inspect(fd.Body, func(n ast.Node) bool {
+		rs, isR := n.(*ast.RangeStmt)
+		if !isR || rs.Pos() < from {
+			return true
+		}
+		over, _ := c04unparen(rs.X).(*ast.Ident)
+		if over == nil || over.Name != slice {
+			return true
+		}
+		key, _ := rs.Key.(*ast.Ident)
+		ast.Inspect(rs.Body, func(m ast.Node) bool {
+			as, isA := m.(*ast.AssignStmt)
+			if !isA || len(as.Lhs) != 1 || len(as.Rhs) != 1 {
+				return true
+			}
+			if ie, isI := as.Lhs[0].(*ast.IndexExpr); isI && key != nil {
+				if idx, isId := c04unparen(ie.Index).(*ast.Ident); isId && idx.Name == key.Name {
+					ok = true
+				}
+			}
+			if c, isC := c04unparen(as.Rhs[0]).(*ast.CallExpr); isC {
+				if f, isId := c.Fun.(*ast.Ident); isId && f.Name == "append" {
+					ok = true
+				}
+			}
+			return true
+		})
+		return true
+	})
+	return ok
+}
+
+func c04sortsThenFills(p *c04pkg, fd *ast.FuncDecl, all []*ast.FuncDecl) bool {
+	slice := ""
+	sortPos := token.NoPos
+	ast.Inspect(fd.Body, func(n ast.Node) bool {
+		c, ok := n.(*ast.CallExpr)
+		if !ok {
+			return true
+		}
+		se, ok := c.Fun.(*ast.SelectorExpr)
+		if !ok {
+			return true
+		}
+		pk, _ := se.X.(*ast.Ident)
+		if pk == nil || pk.Name != "sort" || (se.Sel.Name != "Slice" && se.Sel.Name != "SliceStable") || len(c.Args) != 2 {
+			return true
+		}
+		id, _ := c04unparen(c.Args[0]).(*ast.Ident)
+		fl, _ := c.Args[1].(*ast.FuncLit)
+		if id == nil || fl == nil {
+			return true
+		}
+		var ps []string
+		for _, f := range fl.Type.Params.List {
+			for _, nm := range f.Names {
+				ps = append(ps, nm.Name)
+			}
+		}
+		if len(ps) != 2 {
+			return true
+		}
+		at := func(k string) func(ast.Expr) bool {
+			return func(e ast.Expr) bool {
+				ie, ok := e.(*ast.IndexExpr)
+				if !ok {
+					return false
+				}
+				a, ok1 := c04unparen(ie.X).(*ast.Ident)
+				i, ok2 := c04unparen(ie.Index).(*ast.Ident)
+				return ok1 && ok2 && a.Name == id.Name && i.Name == k
+			}
+		}
+		if c04boolBody(fl.Body, func(e ast.Expr) string { return c04cmpOp(e, at(ps[0]), at(ps[1])) }) == "<" {
+			slice = id.Name
+			sortPos = c.Pos()
+		}
+		return true
+	})
+	if slice == "" {
+		return false
+	}
+	// filled before the sort: inside a range loop (over something else) an assignment to the slice
+	filled := false
+	ast.Inspect(fd.Body, func(n ast.Node) bool {
+		rs, ok := n.(*ast.RangeStmt)
+		if !ok || rs.Pos() > sortPos {
+			return true
+		}
+		if over, _ := c04unparen(rs.X).(*ast.Ident); over != nil && over.Name == slice {
+			return true
+		}
+		ast.Inspect(rs.Body, func(m ast.Node) bool {
+			if as, ok := m.(*ast.AssignStmt); ok && len(as.Lhs) == 1 {
+				if lh, ok := as.Lhs[0].(*ast.Ident); ok && lh.Name == slice {
+					filled = true
+				}
+			}
+			return true
+		})
+		return true
+	})
+	if !filled {
+		return false
+	}
+	if c04fillLoop(fd, slice, sortPos) {
+		return true
+	}
+	// the helper returns the sorted slice: the caller ranges over the result
+	returns := false
+	ast.Inspect(fd.Body, func(n ast.Node) bool {
+		if rs, ok := n.(*ast.ReturnStmt); ok && rs.Pos() > sortPos {
+			for _, r := range rs.Results {
+				if id, ok := c04unparen(r).(*ast.Ident); ok && id.Name == slice {
+					returns = true
+				}
+			}
+		}
+		return true
+	})
+	if !returns {
+		return false
+	}
+	for _, caller := range all {
+		if caller == fd {
+			continue
+		}
+		found := false
+		ast.Inspect(caller.Body, func(n ast.Node) bool {
+			as, ok := n.(*ast.AssignStmt)
+			if !ok || len(as.Rhs) != 1 {
+				return true
+			}
+			c, ok := c04unparen(as.Rhs[0]).(*ast.CallExpr)
+			if !ok || p.callee(c) != fd {
+				return true
+			}
+			for _, lh := range as.Lhs {
+				if id, ok := lh.(*ast.Ident); ok && id.Name != "_" && c04fillLoop(caller, id.Name, as.Pos()) {
+					found = true
+				}
+			}
+			return true
+		})
+		if found {
+			return true
+		}
+	}
+	return false
 }
